@@ -2,6 +2,14 @@
 """Regenerates MANIFEST.json from the table below (run after adding a check)."""
 import json, subprocess
 CHECKS = {
+ "C10": dict(level="exploration", ref="2/C10",
+   text="Generated operation sequences (insert/update/upsert/remove/lookup/scan) on a raw B+tree through the `verif` facade, for four key schemas and a grid of page/min-keys/siblings/cache settings, are compared after every operation with a BTreeMap model (operation outcome, full in-order scan, lookup of every key) and every few operations with a structural audit of the page graph (equal leaf depth, sibling links mirror the in-order leaf sequence, child/overflow references in range, every page owned exactly once). Sampling; open findings cap the payload size that is searched (see evidence.excluded / known.json).",
+   note="Trusted: the BTreeMap model and harness/src/audit.rs; text key order = the engine's public Blob ordering; the facade is logic-free plumbing over Btree::{insert,update,upsert,remove_tuple,search_tuple,iter_forward}.",
+   technique="property-based testing (proptest operation sequences) against a reference model plus an invariant checker over the page graph; process deaths are attributed and minimised with tools/ddmin.py"),
+ "C03": dict(level="exploration", ref="2/C03",
+   text="Generated sequential transaction histories (sessions ended by COMMIT / ROLLBACK / drop, failing statements at any position, execute_batch with failing members, DDL and DML) are run against the engine and a reference model; after every transaction end and every failed statement a fresh SELECT * of every table and name resolution of every pool name must equal the model. Sampling; features with open findings are excluded by construction and counted.",
+   note="Trusted: the SQL reference model (harness/src/sqlmodel.rs) and workload interpreter (harness/src/workload.rs); generator stays inside the statement shapes whose meaning is not in doubt (DESIGN 1.15).",
+   technique="property-based testing: model-based (stateful) histories with shrinking, differential against an in-memory SQL model"),
  "C17": dict(level="exploration", ref="2/C17",
    text="Generated sequences of append/force/reopen/truncate/read on a bare log file (through the `verif` facade) are compared after every force, reopen and read against a list model of the records appended since the last truncation: same count, order, strictly increasing LSNs, identical ids, kinds and payload bytes, nothing extra; record sizes are aimed at block boundaries. Sampling: held on the generated sequences only.",
    note="Trusted: the list model in harness/src/props/c17.rs; LSNs assigned like Pager::push_to_log; drop of the handle counts as a force; sizes within two block headers of the advertised maximum may be refused.",
